@@ -654,3 +654,26 @@ Lemma do_get_published vt s fuel st n v :
 Proof.
   intros H. cbn [do_get]. unfold body, get_singleton, get_lookup. rewrite H. reflexivity.
 Qed.
+
+(* every name Refresh asked for is published at the end, and stays published *)
+Lemma keeps_L1 st st' n v : top st -> top st' -> keeps (reg st) (reg st') ->
+  alookup n (L1 (reg st)) = Some v -> alookup n (L1 (reg st')) = Some v.
+Proof.
+  intros Ht Ht' Hk H. apply (top_cur_L1 st' n v Ht'). apply Hk. unfold cur. rewrite H. reflexivity.
+Qed.
+
+Lemma get_each_published vt s ns : fix_c03 vt = true -> forall st st',
+  top st -> get_each vt s ns st = Ok st' ->
+  keeps (reg st) (reg st') /\ forall n, In n ns -> exists v, alookup n (L1 (reg st')) = Some v.
+Proof.
+  intros Hfix. induction ns as [|n r IH]; intros st st' Ht H; cbn [get_each] in H.
+  - inversion H; subst. split; [apply keeps_refl|intros n []].
+  - destruct (do_get vt s (fuel_of s) st n) as [[st1 v]|k st1] eqn:E; [|discriminate].
+    destruct Ht as [HI Hc].
+    destruct (do_get_spec vt s Hfix _ st n st1 v HI E) as [HI1 [Hc1 [Hk1 Hv1]]].
+    assert (Ht1 : top st1) by (split; [exact HI1|congruence]).
+    destruct (IH st1 st' Ht1 H) as [Hk2 Hall]. split; [eapply keeps_trans; eauto|].
+    intros m [<-|Hm]; [|apply Hall; exact Hm].
+    exists v. assert (Ht' : top st') by (eapply get_each_top; eauto).
+    apply (top_cur_L1 st' n v Ht'). apply Hk2. exact Hv1.
+Qed.
